@@ -14,6 +14,7 @@ import (
 	"fmt"
 	"io"
 	"log/slog"
+	"math"
 	"net"
 	"strings"
 	"sync"
@@ -491,6 +492,10 @@ func (c *client) receive(r io.Reader) (err error) {
 	}
 
 	size := binary.BigEndian.Uint32(sz[:])
+	if size > math.MaxInt32 {
+		// HBase's frame length is a signed 32-bit integer
+		return ServerError{fmt.Errorf("invalid response size %d", size)}
+	}
 	b := make([]byte, size)
 
 	_, err = io.ReadFull(r, b)
